@@ -9,6 +9,7 @@ package main
 import (
 	"fmt"
 	"math"
+	"math/big"
 	"sort"
 	"strconv"
 	"strings"
@@ -34,6 +35,73 @@ func decOf(v float64) M {
 		sg = -1
 	}
 	return M{"sg": sg, "ds": ds, "e": e - (len(digits) - 1)}
+}
+
+// decExactOf: the exact decimal expansion of the double v (every double has a finite one), or nil when
+// it would be too long to be worth handing to the specification
+func decExactOf(v float64) M {
+	r := new(big.Rat).SetFloat64(v)
+	if r == nil {
+		return nil
+	}
+	k := r.Denom().BitLen() - 1 // the denominator is 2^k: k fraction digits are exact
+	if k > 160 {
+		return nil
+	}
+	txt := new(big.Rat).Abs(r).FloatString(k)
+	txt = strings.TrimLeft(strings.Replace(txt, ".", "", 1), "0")
+	e := -k
+	for len(txt) > 1 && txt[len(txt)-1] == '0' {
+		txt = txt[:len(txt)-1]
+		e++
+	}
+	if txt == "" {
+		txt, e = "0", 0
+	}
+	if len(txt) > 400 {
+		return nil
+	}
+	ds := make([]interface{}, len(txt))
+	for i, c := range txt {
+		ds[i] = int(c - '0')
+	}
+	sg := 1
+	if math.Signbit(v) {
+		sg = -1
+	}
+	return M{"sg": sg, "ds": ds, "e": e}
+}
+
+// numArg: the double named by a case's "xd"-style record (sign, digits, power of ten) and nudge
+func numArg(xd interface{}, nudge interface{}) (float64, bool) {
+	m, ok := xd.(map[string]interface{})
+	if !ok {
+		return 0, false
+	}
+	xs := ""
+	if toInt(m["sg"]) < 0 {
+		xs = "-"
+	}
+	ds, _ := m["ds"].([]interface{})
+	for _, d := range ds {
+		xs += strconv.Itoa(toInt(d))
+	}
+	xs += "e" + strconv.Itoa(toInt(m["e"]))
+	v, err := strconv.ParseFloat(xs, 64)
+	if err != nil || math.IsInf(v, 0) || math.IsNaN(v) {
+		return 0, false
+	}
+	nd := toInt(nudge)
+	for k := 0; k < nd; k++ {
+		v = math.Nextafter(v, math.Copysign(math.Inf(1), v))
+	}
+	for k := 0; k > nd; k-- {
+		v = math.Nextafter(v, 0)
+	}
+	if math.IsInf(v, 0) {
+		return 0, false
+	}
+	return v, true
 }
 
 func runNumCase(rq *request) M {
@@ -129,6 +197,21 @@ func runNumCall(f map[string]interface{}) M {
 		st["s"] = f["s"]
 		input = cpsToString(f["s"])
 		src = "$number($)"
+	case "op":
+		// a binary operator on two doubles supplied as input members (C03 on large and tiny magnitudes)
+		vx, okx := numArg(f["xd"], f["nudge"])
+		vy, oky := numArg(f["yd"], f["ynudge"])
+		if !okx || !oky {
+			st["out"] = M{"o": "bad", "why": "operands"}
+			return st
+		}
+		st["op"] = gs(f, "op")
+		st["x"], st["y"] = decOf(vx), decOf(vy)
+		if xe, ye := decExactOf(vx), decExactOf(vy); xe != nil && ye != nil {
+			st["xe"], st["ye"] = xe, ye
+		}
+		input = map[string]interface{}{"x": vx, "y": vy}
+		src = "x " + gs(f, "op") + " y"
 	case "fmt":
 		st["pic"] = f["pic"]
 		src = "$formatNumber($, " + quoteJ(cpsToString(f["pic"]))
@@ -194,6 +277,11 @@ func runNumCall(f map[string]interface{}) M {
 				return
 			}
 			out = M{"o": "val", "x": decOf(v)}
+			if xe := decExactOf(v); xe != nil {
+				out["xe"] = xe
+			}
+		case bool:
+			out = M{"o": "val", "b": v}
 		case int64:
 			out = M{"o": "val", "x": decOf(float64(v))}
 		case int:
